@@ -26,8 +26,10 @@ def _reg(pid, modules, theorems, groups, **kw):
     PROPS[pid] = dict(modules=modules, theorems=theorems, groups=groups, statement=_stmts[pid], **kw)
 
 
-_reg("C20",
-     modules=["Shangrla.Props.C20"],
-     theorems=["Shangrla.C20.unpruned_iff", "Shangrla.C20.leaves_tagged", "Shangrla.C20.tags_exact_neb",
-               "Shangrla.C20.tags_exact_irv", "Shangrla.C20.nebContra_iff_idx"],
-     groups={"elimtree": (1500, 30000)})
+# every property is registered by its own file harness/propdefs/Cnn.py (a dict named PROP)
+import importlib, pkgutil
+from . import propdefs as _pd
+for _m in sorted(pkgutil.iter_modules(_pd.__path__), key=lambda m: m.name):
+    _mod = importlib.import_module(f"harness.propdefs.{_m.name}")
+    _d = dict(_mod.PROP)
+    _reg(_m.name, _d.pop("modules"), _d.pop("theorems"), _d.pop("groups"), **_d)
